@@ -131,6 +131,42 @@ theorem no_feed_in_without_v2g (P : ParkP) (wf : WF P.bat) (hm : P.bat.mode = no
   simp only [h1, h2]
   split_ifs <;> linarith
 
+private theorem sum_neg (xs : List Exchange) :
+    (xs.map (fun x => x.pload - x.pprod)).sum = -(xs.map (fun x => x.pprod - x.pload)).sum := by
+  induction xs with
+  | nil => simp
+  | cons x xs ih => simp only [List.map_cons, List.sum_cons, ih]; ring
+
+/-- **The park's reported net exchange is what its cars exchanged in this increment**: the charge the park reports after
+an update (`curr_p_charge`, positive when charging) equals the sum over the exchanges its cars made in this very
+increment, and is what the park took out of the system balance — whatever the park reported before (nothing is carried
+over from an earlier increment, also when no car is consulted). -/
+theorem reported_charge_is_cars_exchange (P : ParkP) (wf : WF P.bat) (hm : P.bat.mode = none)
+    (k : Park) (p q h : ℚ) (hh : 0 ≤ h) (hk : ∀ c ∈ k.cars, CarOk P c) :
+    ∃ k' p' q' cars' xs, EV.update P k p q h false 0 [] = some (k', p', q') ∧
+      carsStep P h k.cars p q = some (cars', p', q', xs) ∧
+      k'.currPCharge = (xs.map (fun x => x.pload - x.pprod)).sum ∧ k'.currPCharge = p' - p := by
+  obtain ⟨cars', p', q', xs, e, _, _, sum, _, _⟩ := carsStep_spec P wf hm h hh k.cars p q hk
+  unfold EV.update
+  simp only [Bool.false_eq_true, if_false, e]
+  refine ⟨_, _, _, cars', xs, rfl, rfl, ?_, ?_⟩
+  · rw [sum_neg, ← sum]
+    show (if min 0 (p - p') < 0 then -(min 0 (p - p')) else min 0 (p - p')) - max 0 (p - p') = -(p - p')
+    rcases le_total 0 (p - p') with h1 | h1
+    · rw [min_eq_left h1, max_eq_right h1]; simp
+    · rw [min_eq_right h1, max_eq_left h1]; split_ifs <;> linarith
+  · show (if min 0 (p - p') < 0 then -(min 0 (p - p')) else min 0 (p - p')) - max 0 (p - p') = p' - p
+    rcases le_total 0 (p - p') with h1 | h1
+    · rw [min_eq_left h1, max_eq_right h1]; simp
+    · rw [min_eq_right h1, max_eq_left h1]; split_ifs <;> linarith
+
+/-- Non-vacuity: a charge-only park that charged 1/10 MW in the previous increment and meets no surplus now reports 0. -/
+example :
+    let P : ParkP := { bat := { pMax := 1/10, qMax := 1/10, eMax := 1, socMin0 := 1/10, socMax := 1, eta := 1, mode := none }, v2g := false, numCars := 1 }
+    let k : Park := { cars := [{ e := 1/2, socMin := 1/10 }], availableNum := 1, currPCharge := 1/10 }
+    (EV.update P k (1/20) 0 1 false 0 []).map (fun r => r.1.currPCharge) = some 0 := by
+  decide +kernel
+
 /-- With V2G the loop still succeeds and keeps every car inside its limits. -/
 theorem update_cars_inv (P : ParkP) (wf : WF P.bat) (hm : P.bat.mode = none)
     (k : Park) (p q h : ℚ) (hh : 0 ≤ h) (hk : ∀ c ∈ k.cars, CarOk P c) :
